@@ -118,6 +118,11 @@ func (e *Enc) call(v *ssa.Call, c *ssa.CallCommon) {
 	if ci.kind == "invoke" || ci.kind == "dynamic" {
 		e.safety("nil-call", fmt.Sprintf("(not (= %s nil))", argTerms[0]))
 	}
+	if ci.inRepo && ci.fn.Signature.Recv() != nil {
+		if _, isPtr := ci.fn.Signature.Recv().Type().Underlying().(*types.Pointer); isPtr {
+			e.safety("nil-receiver", fmt.Sprintf("(not (= %s nil))", argTerms[0]))
+		}
+	}
 	names := ci.paramNames()
 	env := &Env{e: e, vars: map[string]EV{}}
 	for i, n := range names {
@@ -322,9 +327,6 @@ func (e *Enc) calleeEffects(ci *calleeInfo, env *Env) (writes []string, hasMod b
 	var preds []*ModClause
 	if ci.spec != nil {
 		for _, m := range ci.spec.Modifies {
-			if !e.pass.Active(m.Tags) {
-				continue
-			}
 			switch {
 			case m.Nothing:
 				hasMod = true
@@ -502,6 +504,10 @@ func (e *Enc) varargsElems(t ssa.Value) ([]string, bool) {
 
 // ret: postconditions at a return instruction
 func (e *Enc) ret(x *ssa.Return) {
+	if e.fv.cover {
+		e.obls = append(e.obls, &Obligation{Name: "cover/return@" + e.siteLabel(), Fn: funcKey(e.fn), Kind: "cover", Prefix: len(e.asserts),
+			Reach: e.reach[e.curBlock], Goal: "false", Src: "vacuity guard: this return must be reachable under the assumptions (expected: NOT unsat)", Pos: e.pos(), enc: e})
+	}
 	if e.spec == nil {
 		return
 	}
